@@ -246,6 +246,17 @@ Theorem C14_servo_attached_as_declared : forall (p : dprog) (pre post : list ite
 Proof. exact servo_attached_as_declared. Qed.
 Print Assumptions C14_servo_attached_as_declared.
 
+(* remark, not a finding (the statement of C14 is about libraries): a servo variable bound twice shares
+   one object and is attached once, with the pin of its FIRST declaration - the hypothesis "first
+   declaration of the name" above cannot be dropped (reproduced by the correspondence on the scripts
+   of kind in:servo-rebind) *)
+Theorem C14_servo_rebind_first_wins_remark :
+  exists p d1 d2,
+    d_setup p = [IServo d1; IServo d2] /\ s_name d1 = s_name d2 /\ s_pin d1 <> s_pin d2 /\
+    lib_init p = servo_init_lines d1 /\ lib_globals p = [servo_obj_line (s_name d1)].
+Proof. exact servo_rebind_first_wins. Qed.
+Print Assumptions C14_servo_rebind_first_wins_remark.
+
 (* composition with the include lines and the library lists above: the header(s) providing the class
    of every defined object are included, its library is included and requested, and no library header
    is included without an object of its class *)
